@@ -58,14 +58,16 @@ func RunDScen(casesPath, tracePath, statsPath string, seed int64, proj string) e
 			func() { w.CreateReporter(rep, sdkmath.LegacyMustNewDecFromStr("0.1"), 1_000_000) },
 			func() { w.Delegate(s1, v1, 70_000_000+int64(w.pick(999_979))) }, func() { w.Delegate(s1, v2, 7+int64(w.pick(5_000_000))) }, func() { w.SelectReporter(s1, rep) },
 			func() { w.Delegate(s2, v0, 3_000_001) }, func() { w.SelectReporter(s2, rep) },
-			func() { w.Delegate(other, v0, 900_000_000) }, func() { w.CreateReporter(other, sdkmath.LegacyZeroDec(), 1_000_000) })
+			func() { w.Delegate(other, v1, 450_000_000+int64(w.pick(999))) }, func() { w.Delegate(other, v2, 450_000_000+int64(w.pick(999))) },
+			func() { w.CreateReporter(other, sdkmath.LegacyZeroDec(), 1_000_000) })
 		q := w.currentCycleQuery()
 		n0 := len(w.Reports)
-		w.block(o, 2*sec, func() { w.Tip(tipper, q, 2_000_000) }, func() { w.Submit(rep, q, hex32(1234)) }, func() { w.Submit(other, q, hex32(1235)) })
-		if len(w.Reports) == n0 {
+		w.block(o, 2*sec, func() { w.Tip(tipper, q, 2_000_000) }, func() { w.Submit(rep, q, hex32(1234)) }, func() { w.Submit(other, q, hex32(1235)) },
+			func() { w.Tip(tipper, "qada", 1_000_000) }, func() { w.Submit(rep, "qada", hex32(4321)) })
+		if len(w.Reports) < n0+3 {
 			return
 		}
-		report := w.Reports[n0]
+		report, report2 := w.Reports[n0], w.Reports[n0+2]
 		w.EmptyBlocks(3, 2*sec)
 		// ---- the backer's stake moves between report and dispute ----
 		b, bv, bto := rep, v0, v2
@@ -140,6 +142,10 @@ func RunDScen(casesPath, tracePath, statsPath string, seed int64, proj string) e
 		if id == 0 {
 			return
 		}
+		// a second, lighter dispute about another report of the same reporter while the first one's jail term runs
+		if c.Cat == 2 {
+			w.block(o, 2*sec, func() { w.ProposeDispute(payer, report2, disputetypes.Warning, int64(report2.Power)*10_000, false, "scen-second") })
+		}
 		// ---- votes ----
 		ch := map[string]disputetypes.VoteEnum{"support": disputetypes.VoteEnum_VOTE_SUPPORT, "against": disputetypes.VoteEnum_VOTE_AGAINST, "invalid": disputetypes.VoteEnum_VOTE_INVALID}
 		voters := []*Actor{w.Team, tipper, other, s2}
@@ -156,7 +162,7 @@ func RunDScen(casesPath, tracePath, statsPath string, seed int64, proj string) e
 		// ---- what happens to the backer's validator before the stake comes back ----
 		switch c.Back {
 		case "valjail":
-			w.block(o, 2*sec, func() { w.ValJail(v1) })
+			w.block(o, 2*sec, func() { w.ValJail(v1) }, func() { w.ValJail(v2) })
 		case "valunjail":
 			w.block(o, 2*sec, func() { w.ValJail(v1) })
 			w.block(o, 11*time.Minute, func() { w.ValUnjail(v1) })
